@@ -441,10 +441,11 @@ func TestVerifC06Interop(t *testing.T) {
 func TestVerifC06LongSession(t *testing.T) {
 	vfSetup(t)
 	c := ev.For("C06")
-	c.Rule("long-session: one connection per role arrangement carrying N frames in each direction (quick N = 700, thorough N = 66000: past the second carry of the big-endian nonce counter), small frames from the reference side, 1-byte writes and a few large writes from the real side; oracle: every frame of the real side opens in the reference decoder with the expected payload, everything the reference sends is delivered intact")
-	n := 700
+	c.Rule("long-session: one connection per role arrangement carrying 66000 frames in each direction (past the two-byte carry of the big-endian nonce counter; thorough: 2^24 + 2000 frames in one direction per arrangement, past the three-byte carry), small frames from the reference side, 1-byte writes and a few large writes from the real side; oracle: every frame of the real side opens in the reference decoder with the expected payload, everything the reference sends is delivered intact")
+	n := 66000 // past the two-byte carry of the counter (frame 65536)
+	big := 0
 	if ev.Thorough() {
-		n = 66000
+		big = 1<<24 + 2000 // thorough: one direction per arrangement goes past the three-byte carry
 	}
 	shard, nshards := ev.IntEnv("VERIF_SHARD", 0), ev.IntEnv("VERIF_NSHARDS", 1)
 	for ri, realIsClient := range []bool{true, false} {
@@ -460,17 +461,22 @@ func TestVerifC06LongSession(t *testing.T) {
 		if !realIsClient {
 			dirIn, dirOut = 0, 1
 		}
-		// reference -> real: n small frames, released in a few big segments
-		var want []byte
+		nIn, nOut := n, n
+		if big > 0 && realIsClient {
+			nIn = big
+		} else if big > 0 {
+			nOut = big
+		}
+		// reference -> real: nIn small frames, released in a few big segments
 		off := 0
 		var batch []byte
-		for i := 0; i < n; i++ {
+		delivered := 0
+		for i := 0; i < nIn; i++ {
 			k := 1 + i%3
 			pl := vfCounterStream(dirIn, off, k)
 			off += k
-			want = append(want, pl...)
 			batch = append(batch, s.Enc.Frame(refobfs4.PktPayload, pl, i%2)...)
-			if len(batch) > 60000 || i == n-1 {
+			if len(batch) > 60000 || i == nIn-1 {
 				s.N.Inject(s.RefSide, batch)
 				s.N.ReleaseAll(s.RefSide)
 				batch = nil
@@ -480,15 +486,18 @@ func TestVerifC06LongSession(t *testing.T) {
 				if rerr := s.Ep.ReadErr(); rerr != nil {
 					t.Fatalf("VIOL[c06-long-session-read]: realIsClient=%v: Read failed after about %d reference frames: %v", realIsClient, i+1, rerr)
 				}
+				// compare and drop what has been delivered so far (keeps memory flat)
+				got := s.Ep.TakeGot()
+				if !bytes.Equal(got, vfCounterStream(dirIn, delivered, len(got))) || delivered+len(got) != off {
+					t.Fatalf("VIOL[c06-long-session-read]: realIsClient=%v: after %d reference frames %d bytes were delivered (want %d) or content differs", realIsClient, i+1, delivered+len(got), off)
+				}
+				delivered += len(got)
 			}
-		}
-		if got := s.Ep.Got(); !bytes.Equal(got, want) {
-			t.Fatalf("VIOL[c06-long-session-read]: realIsClient=%v: %d of %d bytes delivered from %d reference frames", realIsClient, len(got), len(want), n)
 		}
 		// real -> reference: 1-byte writes (one payload frame + padding frames each) until n frames were seen
 		frames := 0
 		woff := 0
-		for frames < n {
+		for frames < nOut {
 			sz := 1
 			if frames%97 == 0 {
 				sz = 40000 // 29 frames at once
@@ -512,10 +521,14 @@ func TestVerifC06LongSession(t *testing.T) {
 			}
 			frames += len(fr)
 			woff += sz
+			if woff%4096 == 0 {
+				s.N.DropLogs()
+			}
 		}
 		s.N.Shutdown()
 		c.Bulk(2, 2)
 		c.Sample(ev.Hash("long", realIsClient, n), map[string]any{"unit": "long-session", "real_is_client": realIsClient, "frames_each_way": n})
 	}
 	c.Class("long-session-frames-each-way", int64(n))
+	c.Class("long-session-frames-long-direction", int64(big))
 }
